@@ -1698,9 +1698,14 @@ def optimal_cost_value(variable: Variable, mode: str):
     """
     if hasattr(variable, "cost_for_val"):
         opt_func = min if mode == "min" else max
-        best_cost, best_value = opt_func(
-            (variable.cost_for_val(value), value) for value in variable.domain
-        )
+        costs = [(variable.cost_for_val(value), value) for value in variable.domain]
+        try:
+            best_cost, best_value = opt_func(costs)
+        except TypeError:
+            # Several values have the best cost and the values of the domain
+            # cannot be ordered (e.g. strings and numbers): look at the costs
+            # only.
+            best_cost, best_value = opt_func(costs, key=lambda cv: cv[0])
     else:
         best_value, best_cost = random.choice(variable.domain), None
 
